@@ -46,27 +46,36 @@ Start(e) ==
     /\ UNCHANGED <<arr, ehow, res, outv, guarding, phase, stopT>>
 (* how: ok | fail | cancelled (by the block) | selfcancel (the user's coroutine ended     *)
 (* with a CancelledError of its own: reported as cancelled, the block carries on)         *)
+(* tcancelled (chosen by the monitor): cancelled because stop_timeout ran out - only at    *)
+(* that very moment, and whatever the mode                                                *)
+AtTimeout(t) == phase = "stopping" /\ t = stopT + H(tid).stop_timeout
+ByNewer(e) == H(tid).mode = "c" /\ NewerKnown(e.id)
 End(e) == /\ st[e.id] = "running"
-          /\ (e.how = "cancelled" => (H(tid).mode = "c" /\ NewerKnown(e.id)))   \* only for a newer event
-          /\ st' = [st EXCEPT ![e.id] = "ended"] /\ ehow' = [ehow EXCEPT ![e.id] = e.how]
+          /\ (e.how = "cancelled" => (ByNewer(e) \/ AtTimeout(e.t)))           \* only for a newer event / at the time-out
+          /\ st' = [st EXCEPT ![e.id] = "ended"]
+          /\ ehow' = [ehow EXCEPT ![e.id] = IF e.how = "cancelled" /\ ~ByNewer(e) THEN "tcancelled" ELSE e.how]
           /\ guarding' = guarding \cup {[id |-> e.id, until |-> e.t + H(tid).guard]}
           /\ UNCHANGED <<arr, res, outv, incs, phase, stopT>>
 Res(e) == /\ arr[e.id] # NONE /\ res[e.id] = "none" /\ e.same             \* exactly one, own data
           /\ res' = [res EXCEPT ![e.id] = e.kind]
           /\ \/ /\ e.kind = "success" /\ st[e.id] = "ended" /\ ehow[e.id] = "ok" /\ UNCHANGED st
              \/ /\ e.kind = "error" /\ st[e.id] = "ended" /\ ehow[e.id] = "fail" /\ UNCHANGED st
-             \/ /\ e.kind = "cancel" /\ st[e.id] = "ended" /\ ehow[e.id] \in {"cancelled", "selfcancel"} /\ UNCHANGED st
+             \/ /\ e.kind = "cancel" /\ st[e.id] = "ended" /\ ehow[e.id] \in {"cancelled", "selfcancel", "tcancelled"} /\ UNCHANGED st
              \/ /\ e.kind = "cancel" /\ st[e.id] = "queued"                        \* discarded
                 /\ H(tid).mode = "c" /\ NewerKnown(e.id)
                 /\ st' = [st EXCEPT ![e.id] = "discarded"]
           /\ UNCHANGED <<arr, ehow, outv, incs, guarding, phase, stopT>>
 Stop(e) == /\ phase = "run" /\ phase' = "stopping" /\ stopT' = e.t
            /\ UNCHANGED <<arr, st, ehow, res, outv, incs, guarding>>
+(* stop_timeout ran out before the pending work was done: what is left is abandoned, the  *)
+(* stop itself is still bounded (plus one guard time, which a cancellation cannot         *)
+(* shorten)                                                                               *)
+TimedOut == \E i \in Ids : ehow[i] = "tcancelled"
 Stopped(e) == /\ phase = "stopping" /\ phase' = "stopped"
-              /\ \A i \in Known : res[i] # "none"                      \* every put was resolved
+              /\ (TimedOut \/ \A i \in Known : res[i] # "none")         \* every put was resolved
               /\ (H(tid).stopdata => arr[S] # NONE)
               /\ Running = {} /\ guarding = {} /\ outv = 0 /\ incs = 0  \* output back to 0
-              /\ e.t <= stopT + H(tid).stop_timeout
+              /\ e.t <= stopT + H(tid).stop_timeout + H(tid).guard
               /\ UNCHANGED <<arr, st, ehow, res, outv, incs, guarding, stopT>>
 EndLine(e) == /\ phase = "stopped" /\ e.leftover = 0 /\ phase' = "ended"
               /\ UNCHANGED <<arr, st, ehow, res, outv, incs, guarding, stopT>>
